@@ -1,6 +1,8 @@
 import MithrilModel.StmVerify
 import MithrilModel.Properties.C09
 import MithrilModel.Properties.C08
+import Mathlib.Tactic.LinearCombination
+import Mathlib.Tactic.Ring
 /-!
 # C01 — Multi-signature soundness: accepted aggregates carry a real stake quorum
 
@@ -51,6 +53,19 @@ theorem C01_batch_member_alone (ms : List (Env × Nat × List Sig)) (final : Boo
     (hagg : mbr.1.aggOk (mbr.2.2.map fun s => (s.vk, s.sigma)) = true) :
     verifyM mbr.1 mbr.2.1 mbr.2.2 = .ok :=
   verifyM_of_preliminary _ _ _ (batchVerify_members ms final h mbr hm) hagg
+
+/-- (6), the algebra behind the aggregate check: `verify_aggregate` tests ONE pairing equation on
+`Σ eᵢ·σᵢ` and `Σ eᵢ·vkᵢ` with hash-derived 128-bit coefficients `eᵢ`. Writing `δᵢ` for the discrete-log
+"error" of signature `i` (0 iff it is valid for its key), the equation holds iff `Σ eᵢ·δᵢ = 0`. If some
+`δⱼ ≠ 0`, then for fixed other coefficients at most ONE value of `eⱼ` passes — so an invalid signature
+survives only with probability 2⁻¹²⁸ over the (random-oracle) choice of `eⱼ`. The probabilistic step itself
+is an assumption of the trusted base; this lemma is its deterministic core, over any field. -/
+theorem C01_agg_bad_coeff_unique {F : Type} [Field F] (δj rest e e' : F) (hδ : δj ≠ 0)
+    (h1 : rest + e * δj = 0) (h2 : rest + e' * δj = 0) : e = e' := by
+  have : (e - e') * δj = 0 := by linear_combination h1 - h2
+  rcases mul_eq_zero.mp this with h | h
+  · exact sub_eq_zero.mp h
+  · exact absurd h hδ
 
 /-- non-vacuity: a concrete aggregate is accepted -/
 example : verifyM E0 1 [{ sigma := 1, idxs := [0, 1, 4], vk := 0, stake := 1 }] = .ok := by decide
